@@ -39,7 +39,9 @@ Compare ==
   /\ \A k \in 1..(IF Len(sa) < Len(sb) THEN Len(sa) ELSE Len(sb)) :
         LET a == RunSeq(TA, sa, k)  b == RunSeq(TB, sb, k) IN
         IF a = b THEN TRUE
-        ELSE IF Mode = "behaviour" /\ (HasDeadlockPanic(a) \/ HasDeadlockPanic(b))
+        \* (only when the caller cannot rule out genuine ask cycles in the schedules: a deadlock panic then is the
+        \* documented behaviour of the feature, not a difference)
+        ELSE IF Mode = "behaviour" /\ IOEnv.EQSKIP = "cycles" /\ (HasDeadlockPanic(a) \/ HasDeadlockPanic(b))
           THEN PrintT(ToString(<<"SKIP", TA[sa[k]].run, "ask cycle (deadlock panic) in one of the runs">>))
           ELSE LET i == FirstDiff(a, b) IN
                PrintT(ToString(<<"DIFF", TA[sa[k]].run, i,
